@@ -66,10 +66,10 @@ def hazards(case):
 
 
 def explain(case, pj):
-    """the largest set of variants whose predicted stream equals the recorded one"""
+    """the smallest set of variants whose predicted stream equals the recorded one"""
     best = None
     for v in case["iv"]:
-        if v["pj"] == pj and (best is None or len(v["fl"]) > len(best)):
+        if v["pj"] == pj and (best is None or (len(v["fl"]), sorted(v["fl"])) < (len(best), best)):
             best = sorted(v["fl"])
     return best
 
